@@ -49,7 +49,9 @@ DEFS = [
     ('literal::I2', '', range(0, 4), (0, 1), ['k?', 'K?', 'a?', 'y?', 'Z?', 'ab?', '\t?', '\td?', '\tD?', '\x00?', '\x9d?', '\x9dE?', '\x0f?'], (0,)),
     ('twins::P1', '', range(0, 2), (0,), ['1?', '12?', '1x?', 'a?', 'bc?', 'b?', 'y1?', 'y12?', 'q?', 'Q?', 'w?', 'w€?', 'we?', 'ad?', '??'], (0,)),
     ('twins::P2', '', range(0, 3), (0,), ['x?', 'a?', 'ab?', 'abc?', 'b!?', '??', 'y?', 'y\u00e9?', 'z?', 'z\u00e9?', 'zb?'], (0,)),
+    ('twins::P3', '', range(0, 3), (0,), ['g?', 'gk?', 'h?', 'hi?', 'hik?', 'mn?', 'mnm?', 'mnmn?', '5e?', '-5e+?', '5e-7?', '+?', '?'], (0,)),
     ('twins::O1', 'sS', range(0, 2), (0,), ['a?', 'ab?', 'A?', 'Ab?', 'd?', 'dxe?', 'dxex?', 's?', 'sSa?', 'abc?', 'D?e'], (0,)),
+    ('twins::O4', '#xyz', range(0, 2), (0,), ['a?', 'ab?', 'abc?', 'se?', 'sel?', 'SE?', '#xy a?', '#xya?', '?'], (0,)),
     ('twins::O2', '_', range(0, 3), (0,), ['1?', '_?', 'n?', '_1?', '12_?'], (0,)),
     ('twins::O3', '_', range(0, 3), (0,), ['h?', '_h?', 'h\u00e9?'], (0,)),
     ('twins::Q1', ' ', range(0, 4), (0,), ['.?', '..?', '...?', ' ?', '. ?', '.. .?'], (0,)),
@@ -113,8 +115,10 @@ def ctx_arr(c):
 TWINS = [  # (A, B, need_utf8, contexts)
     ('twins::P1', 'twins::P1T', True, ['?', '??', '1?', '12?', '1x?', 'a?', 'bc?', 'b?', 'bcd?', 'y1?', 'y12?', 'q?', 'Q?', 'qz?', 'w?', 'w€?', 'we?', 'wew?', 'ad?']),
     ('twins::P2', 'twins::P2T', False, ['?', '??', 'x?', 'a?', 'ab?', 'abc?', 'b!?', 'a??', 'y?', 'y??', 'y\u00e9?', 'z?', 'z\u00e9?', 'zb?', 'z??']),
+    ('twins::P3', 'twins::P3T', False, ['?', '??', 'g?', 'gk?', 'h?', 'hi?', 'hik?', 'mn?', 'mnm?', 'mnmn?', '5e?', '-5e+?', '5e-7?', '+?']),
     ('twins::O1', 'twins::O1A', False, ['?', '??', 'a?', 'ab?', 'A?', 'Ab?', 'd?', 'dxe?', 'dxex?', 's?', 'sSa?', 'abc?', 'D?e']),
     ('twins::O1', 'twins::O1B', False, ['?', '??', 'a?', 'ab?', 'A?', 'Ab?', 'd?', 'dxe?', 'dxex?', 's?', 'sSa?', 'abc?', 'D?e']),
+    ('twins::O4', 'twins::O4A', False, ['?', 'a?', 'ab?', 'abc?', 'se?', 'sel?', 'SE?', 'SEL?', '#xy a?', '#xya?', '#x?']),
     ('twins::O2', 'twins::O2A', False, ['?', '??', '???', '1?', '_?', 'n?', '_1?', '12_?']),
     ('twins::O3', 'twins::O3A', False, ['?', '??', 'h?', '_h?']),
 ]
